@@ -637,11 +637,12 @@ class Evaluator:
                 base = None
             if isinstance(base, str):
                 return getattr(base, fn.attr)(*args)      # builtin string operation on constants
-        if isinstance(fn, ast.Attribute) and fn.attr in ("search", "match", "fullmatch") and args and isinstance(args[0], str):
+        if isinstance(fn, ast.Attribute) and fn.attr in ("search", "match", "fullmatch") and args and isinstance(args[0], str) \
+                and all(type(a) is int for a in args[1:]):
             rx = self.expr(fn.value, env, f, depth)
             if isinstance(rx, tuple) and len(rx) == 2 and rx[0] == "re" and isinstance(rx[1], str):
                 import re as _re
-                m = getattr(_re.compile(rx[1]), fn.attr)(args[0])
+                m = getattr(_re.compile(rx[1]), fn.attr)(*args)
                 return None if m is None else {"start()": m.start(), "end()": m.end(), "group()": m.group()}
         if isinstance(fn, ast.Attribute) and fn.attr in ("format", "join", "upper", "lower", "strip"):
             return Opaque("str")
